@@ -82,7 +82,18 @@ def native_confirm(scr, kernels, vals):
         for k, a, b in ctnative.differing(res2):
             if abs(a[1] - b[1]) > TOLERANCE.get(k, 0):
                 diffs.append({'oracle': 'valgrind instruction count (release build)', 'kernel': k, 'function': k, 'input_a': list(a[0]), 'instructions_a': a[1], 'input_b': list(b[0]), 'instructions_b': b[1]})
-    if res is None and res2 is None:
+    # address oracle: data-access trace of the target between two markers (valgrind lackey); kernel probes only
+    mk = [k for k in kernels if k not in ctnative.MEM_EXCLUDE]
+    res3 = None
+    if mk and not diffs:
+        res3, out3 = ctnative.probe_mem(scr, mk, extra_vals=vals)
+        if res3 is None:
+            summary['memory'] = 'probe build failed: ' + out3[-300:]
+        else:
+            summary['memory'] = {k: sorted({r for r in d.values() if r is not None})[:3] for k, d in res3.items()}
+            for k, a, b in ctnative.mem_differing(res3):
+                diffs.append({'oracle': 'data-access trace (valgrind lackey, between markers)', 'kernel': k, 'function': k, 'input_a': list(a[0]), 'input_b': list(b[0]), 'trace_a': list(a[1]), 'trace_b': list(b[1])})
+    if res is None and res2 is None and res3 is None:
         return None, summary
     return diffs, summary
 
@@ -152,12 +163,12 @@ def run(run, scr, tier, seed, only=None):
         path = vlib.save_replay('C14', 'trace', payload)
         if diffs:
             d = diffs[0]
-            more = f'{d["instructions_a"]} vs {d["instructions_b"]} instructions' if 'instructions_a' in d else f'region counts of `{d["function"]}` differ'
+            more = f'{d["instructions_a"]} vs {d["instructions_b"]} instructions' if 'instructions_a' in d else (f'data-access traces {d["trace_a"]} vs {d["trace_b"]} (digest, length)' if 'trace_a' in d else f'region counts of `{d["function"]}` differ')
             run.violation('ct:' + real[0]['fn'].split('::{closure')[0] + ':' + real[0]['kind'], f'secret-dependent {real[0]["kind"]} in {real[0]["fn"]} {real[0]["bb"]} ({real[0]["what"][:140]}); natively ({d["oracle"]}) probe `{d["kernel"]}`: {more} for inputs {d["input_a"]} and {d["input_b"]} with the same public inputs', path)
         elif diffs is None:
             run.inconclusive.append('C14: native probes unavailable: ' + str(counts)[:300])
         else:
-            run.inconclusive.append(f'{len(real)} secret-dependent observation(s) at the MIR level (first: {real[0]["fn"]} {real[0]["bb"]}: {real[0]["what"][:140]}) but neither the coverage counters nor the instruction counts of {kernels} differ (an address-only dependence is not visible to these probes)')
+            run.inconclusive.append(f'{len(real)} secret-dependent observation(s) at the MIR level (first: {real[0]["fn"]} {real[0]["bb"]}: {real[0]["what"][:140]}) but neither the coverage counters nor the instruction counts of {kernels} differ (coverage counters, instruction counts and data-access traces of the probes agree)')
     run.samples = [{'obligation': q.get('name'), 'verdict': q.get('verdict'), 'solver_s': q.get('solver_s')} for q in run.queries[:12]]
     run.extra['bounds'] = ['every body reachable from key_gen_internal / sign_internal with CTEST = true plus the listed kernels alone; K, L and the scalar parameters symbolic (public)',
                            'loops: one iteration from a havocked loop state (locals assigned in the loop replaced by fresh symbols, taint of loop-carried values iterated to a fixed point); a loop whose back edge is infeasible is not havocked',
